@@ -68,6 +68,10 @@ func propC05(c c05Case, o *hx.Obs) *hx.Failure {
 		ctx := fmt.Sprintf("search %d on %s (after %d plies from %s) limits %+v settings {%s}", si+1, root.FEN(), played, c.Play.Start, st.Limits, c.Settings.String())
 		out := hx.RunSearch(s, d, ep, &root, st.Limits, 30*time.Second)
 		o.Evals(1)
+		if out.Slow {
+			o.Label("slow-search-stopped-by-harness(inconclusive)")
+			return nil
+		}
 		if out.Hung {
 			// confirm in isolation is not possible inside this process (the search may still run): report
 			return hx.Failf("C05/terminate/hang-"+st.Limits.Mode, "%s: search did not end within 30 s", ctx)
